@@ -763,3 +763,24 @@ var Tree = Cello(Tree,
   Instance(Show,    Tree_Show, NULL));
 
 
+
+#ifdef CELLO_VERIF
+
+var Cello_Verif_Tree_Root(var self, size_t* nitems) {
+  struct Tree* m = self;
+  if (nitems) { *nitems = m->nitems; }
+  return m->root;
+}
+
+void Cello_Verif_Tree_Node(var self, var node, var* left, var* right,
+  var* parent, bool* red, var* key, var* val) {
+  struct Tree* m = self;
+  if (left)   { *left   = *Tree_Left(m, node); }
+  if (right)  { *right  = *Tree_Right(m, node); }
+  if (parent) { *parent = Tree_Get_Parent(m, node); }
+  if (red)    { *red    = Tree_Is_Red(m, node); }
+  if (key)    { *key    = Tree_Key(m, node); }
+  if (val)    { *val    = Tree_Val(m, node); }
+}
+
+#endif
